@@ -28,7 +28,7 @@ class LogCatcher(logging.Handler):
 
 
 class Harness:
-    def __init__(self, addons=(), n_regions=1, swallow=True, with_logger=True, same_ip=False):
+    def __init__(self, addons=(), n_regions=1, swallow=True, with_logger=True, same_ip=False, addon_scripts=()):
         from hippolyzer.lib.base.datatypes import UUID
         from hippolyzer.lib.base.message.udpserializer import UDPMessageSerializer
         from hippolyzer.lib.proxy.addons import AddonManager
@@ -63,7 +63,7 @@ class Harness:
         for i, addr in enumerate(self.region_addrs[1:]):
             self.session.register_region(addr, handle=1000 + i, seed_url="https://test.localhost:4/r%d" % i)
         self.transport = RecTransport()
-        AddonManager.init([], self.session_manager, list(addons), swallow_addon_exceptions=swallow)
+        AddonManager.init(list(addon_scripts), self.session_manager, list(addons), swallow_addon_exceptions=swallow)
         self.protocol = InterceptingLLUDPProxyProtocol(self.client_addr, self.session_manager)
         self.protocol.transport = self.transport
         self.serializer = UDPMessageSerializer()
